@@ -181,7 +181,59 @@ def _convert(stmts, emit):
             new = ast.With(s.items, body[:-1] + _convert([body[-1]], emit))
             return [ast.copy_location(new, s)]
         raise _NoInline("return inside with")
+    if isinstance(s, (ast.For, ast.While)) and not _has_return(s.orelse):
+        # `for x in xs: if p(x): return x` ; rest   ==>   for x in xs: if p(x): <emit x>; break   else: rest
+        # (a loop's else runs exactly when the loop ends without break; a loop that already uses break would
+        # change meaning, so that shape is refused)
+        for n in _walk_loop_body(s):
+            if isinstance(n, ast.Break):
+                raise _NoInline("return inside a loop that also breaks")
+        body = _returns_to_breaks(list(s.body), emit)
+        orelse = _convert(list(s.orelse) + rest, emit)
+        if isinstance(s, ast.For):
+            new = ast.For(s.target, s.iter, body, orelse, None)
+        else:
+            new = ast.While(s.test, body, orelse)
+        return [ast.copy_location(new, s)]
     raise _NoInline(f"return inside {type(s).__name__}")
+
+
+def _walk_loop_body(loop):
+    """nodes of the loop body that belong to this loop (not to a nested loop / function)"""
+    todo = list(loop.body)
+    while todo:
+        n = todo.pop()
+        yield n
+        if isinstance(n, (ast.For, ast.While, ast.FunctionDef, ast.AsyncFunctionDef, ast.ClassDef, ast.Lambda)):
+            continue
+        todo.extend(ast.iter_child_nodes(n))
+
+
+def _returns_to_breaks(stmts, emit):
+    out = []
+    for s in stmts:
+        if isinstance(s, ast.Return):
+            out.extend(emit(s.value if s.value is not None else ast.Constant(None)))
+            out.append(ast.copy_location(ast.Break(), s))
+            return out
+        if not _has_return([s]):
+            out.append(s)
+            continue
+        if isinstance(s, ast.If):
+            new = ast.If(s.test, _returns_to_breaks(list(s.body), emit) or [ast.copy_location(ast.Pass(), s)], _returns_to_breaks(list(s.orelse), emit))
+            out.append(ast.copy_location(new, s))
+        elif isinstance(s, ast.Try) and not s.finalbody:
+            hs = [ast.copy_location(ast.ExceptHandler(h.type, h.name, _returns_to_breaks(list(h.body), emit) or [ast.copy_location(ast.Pass(), h)]), h) for h in s.handlers]
+            new = ast.Try(_returns_to_breaks(list(s.body), emit), hs, _returns_to_breaks(list(s.orelse), emit), [])
+            out.append(ast.copy_location(new, s))
+        elif isinstance(s, ast.With):
+            out.append(ast.copy_location(ast.With(s.items, _returns_to_breaks(list(s.body), emit)), s))
+        elif isinstance(s, ast.Match):
+            cases = [ast.match_case(c.pattern, c.guard, _returns_to_breaks(list(c.body), emit) or [ast.copy_location(ast.Pass(), s)]) for c in s.cases]
+            out.append(ast.copy_location(ast.Match(s.subject, cases), s))
+        else:
+            raise _NoInline("return inside a nested loop")
+    return out
 
 
 class Inliner:
@@ -350,6 +402,15 @@ class Inliner:
                     return self._expand_with(s, r[0], r[1], f, root)
                 except _NoInline as e:
                     self.log.append(f"{f.key}: {r[0].key} (context manager) not inlined: {e}")
+        if isinstance(s, ast.Expr) and isinstance(s.value, ast.YieldFrom) and isinstance(s.value.value, ast.Call):
+            # `yield from helper(args)`: the generator helper's statements, yields and all
+            r = self._resolve(s.value.value, f, generator=True)
+            if r is not None:
+                try:
+                    pre, body = self._bind(s.value.value, r[0], r[1], root, set())
+                    return pre + _convert(body, lambda e: []) or [ast.copy_location(ast.Pass(), s)]
+                except _NoInline as e:
+                    self.log.append(f"{f.key}: {r[0].key} (generator) not inlined: {e}")
         if isinstance(s, (ast.Assign, ast.AnnAssign, ast.AugAssign, ast.Expr, ast.Return)):
             if getattr(s, "value", None) is not None:
                 heads.append(("value", s.value))
@@ -413,7 +474,7 @@ class Inliner:
             self._unique_methods = d
         return self._unique_methods
 
-    def _resolve(self, call: ast.Call, f, ctxmgr: bool = False):
+    def _resolve(self, call: ast.Call, f, ctxmgr: bool = False, generator: bool = False):
         from .core import Func
 
         fn = call.func
@@ -480,7 +541,10 @@ class Inliner:
                 n_yield += 1
             if ctxmgr and isinstance(n, ast.Return):
                 return None
-        if n_yield != (1 if ctxmgr else 0):
+        if generator:
+            if n_yield == 0 or any(isinstance(n, ast.Return) and n.value is not None for n in _walk_same_func(node)):
+                return None
+        elif n_yield != (1 if ctxmgr else 0):
             return None
         key = (callee.module.relpath, callee.qualname, callee.kind)
         if key in self.active:
